@@ -710,7 +710,7 @@ static int write_container_end(cif_container_tp *block UNUSED, void *context) {
 }
 
 static int write_loop_start(cif_loop_tp *loop, void *context) {
-    UChar *category;
+    UChar *category = NULL;  /* released at the end, whether or not it is ever assigned */
     int result;
 
     result = cif_loop_get_category(loop, &category);
